@@ -339,4 +339,11 @@ func BigFloatToFixedPointCRT(r *ring.Ring, values []*big.Float, scale *big.Float
 			}
 		}
 	}
+
+	// Coefficients for which no value is provided are zero.
+	for j := range moduli {
+		for i := len(values); i < len(coeffs[j]); i++ {
+			coeffs[j][i] = 0
+		}
+	}
 }
